@@ -2,7 +2,9 @@
 
 mod util;
 mod c01;
+mod c03;
 mod c04;
+mod c11;
 mod c12;
 mod c13;
 mod c14;
@@ -13,7 +15,9 @@ mod c20;
 fn main() {
     vcore::main_for(|id| match id {
         "C01" => Some(c01::check()),
+        "C03" => Some(c03::check()),
         "C04" => Some(c04::check()),
+        "C11" => Some(c11::check()),
         "C12" => Some(c12::check()),
         "C13" => Some(c13::check()),
         "C14" => Some(c14::check()),
